@@ -341,27 +341,55 @@ def o_encode(tag, kind):
 
 
 class Env19(ScriptedEnv):
-    """ScriptedEnv plus the observation kind 'dictbox' (Dict of Box spaces only: VecFrameStack accepts it)"""
+    """ScriptedEnv plus (a) the observation kind 'dictbox' (Dict of Box spaces only: VecFrameStack accepts it) and
+    (b) `reuse=True`: like many real environments it keeps ONE observation buffer and ONE info dict and updates them in
+    place at every step/reset — whatever a VecEnv hands to its caller must not be those objects"""
 
-    def __init__(self, env_id=0, obs_kind="box1", act_kind="discrete", script=None):
+    def __init__(self, env_id=0, obs_kind="box1", act_kind="discrete", script=None, reuse=False):
         base_kind = "box1" if obs_kind == "dictbox" else obs_kind
         super().__init__(env_id=env_id, obs_kind=base_kind, act_kind=act_kind, script=script, check_actions=False)
         self.kind19 = obs_kind
         self.observation_space = o_space(obs_kind)
+        self.reuse = reuse
+        self._obs_buf = None
+        self._info_buf = {}
+
+    def _out_obs(self, o):
+        if self.kind19 == "dictbox":
+            o = o_encode(make_tag(self.env_id, self.episode, self.step_in_ep), "dictbox")
+        if not self.reuse:
+            return o
+        if self._obs_buf is None:
+            self._obs_buf = copy.deepcopy(o)
+            return self._obs_buf
+        if isinstance(o, dict):
+            for k, v in o.items():
+                if isinstance(self._obs_buf[k], np.ndarray) and self._obs_buf[k].shape:
+                    np.copyto(self._obs_buf[k], v)
+                else:
+                    self._obs_buf[k] = v
+            return self._obs_buf
+        if isinstance(o, np.ndarray) and o.shape:
+            np.copyto(self._obs_buf, o)
+            return self._obs_buf
+        return o
+
+    def _out_info(self, info):
+        if not self.reuse:
+            return info
+        self._info_buf.clear()
+        self._info_buf.update(info)
+        return self._info_buf
 
     def reset(self, *, seed=None, options=None):
         o, info = super().reset(seed=seed, options=options)
-        if self.kind19 == "dictbox":
-            o = o_encode(make_tag(self.env_id, self.episode, self.step_in_ep), "dictbox")
-        return o, info
+        return self._out_obs(o), info
 
     def step(self, action):
         o, r, te, tr, info = super().step(action)
-        if self.kind19 == "dictbox":
-            o = o_encode(make_tag(self.env_id, self.episode, self.step_in_ep), "dictbox")
         info["payload"] = np.array([self.n_steps, self.env_id], dtype=np.int64)
         info["nested"] = {"k": float(self.n_steps)}
-        return o, r, te, tr, info
+        return self._out_obs(o), r, te, tr, self._out_info(info)
 
 
 class Env19Fn:
@@ -458,7 +486,8 @@ class VenvSubject(Subject):
 
         self.case = case
         n = case["n"]
-        fns = [Env19Fn(env_id=i, obs_kind=case["obs"], act_kind=case["act"], script=case["scripts"][i]) for i in range(n)]
+        fns = [Env19Fn(env_id=i, obs_kind=case["obs"], act_kind=case["act"], script=case["scripts"][i],
+                       reuse=bool(case.get("reuse"))) for i in range(n)]
         if case["base"] == "subproc":
             venv = SubprocVecEnv(fns, start_method=case.get("start", "fork"))
         else:
@@ -1156,7 +1185,7 @@ def gen_venv(rng, widen, thorough):
         else:
             ops.append({"op": o})
     case = {"kind": "venv", "base": base, "obs": obs, "act": rng.choice(ACTS), "n": n, "layers": layers,
-            "scripts": scripts, "ops": ops}
+            "scripts": scripts, "ops": ops, "reuse": rng.chance(0.45)}
     if base == "subproc":
         case["start"] = "fork"
     return case
@@ -1277,11 +1306,11 @@ def gen_policy(rng, widen, thorough):
 def gen_cases(ctx):
     rng = ctx.rng
     cases = []
-    for _ in range(ctx.budget(440, 4400)):
+    for _ in range(ctx.budget(700, 7000)):
         cases.append(gen_venv(rng, ctx.widen, ctx.thorough))
-    for _ in range(ctx.budget(440, 4400)):
+    for _ in range(ctx.budget(700, 7000)):
         cases.append(gen_buffer(rng, ctx.widen, ctx.thorough))
-    for _ in range(ctx.budget(120, 1200)):
+    for _ in range(ctx.budget(200, 2000)):
         cases.append(gen_policy(rng, ctx.widen, ctx.thorough))
     return cases
 
@@ -1304,7 +1333,11 @@ def shrink_candidates(case):
             c = dict(case)
             c["base"] = "dummy"
             yield c
-    if case["n"] > 1:
+        if case.get("reuse"):
+            c = dict(case)
+            c["reuse"] = False
+            yield c
+    if case.get("n", 1) > 1:
         c = copy.deepcopy(case)
         c["n"] = case["n"] - 1
         if "scripts" in c:
@@ -1397,7 +1430,7 @@ def validate(case):
 
 def check_cases(ctx, cases):
     rep = ctx.report
-    ops, plan = [{"op": "table"}], []
+    ops, plan, pending = [{"op": "table"}], [], []
     for case in cases:
         validate(case)
         kind = case.get("kind")
@@ -1423,6 +1456,7 @@ def check_cases(ctx, cases):
             for L in case["layers"]:
                 rep.count(f"layer:{L['w']}")
             rep.count(f"venv_obs:{case['obs']}")
+            rep.count("venv_env_reuses_buffers" if case.get("reuse") else "venv_env_fresh_objects")
         elif kind == "buffer":
             rep.count(f"buffer:{case['cls']}" + (":memopt" if case.get("memopt") else "") + (":vn" if case.get("vn") else "")
                       + (":copy_info" if case.get("copy_info_dict") else ""))
@@ -1445,8 +1479,11 @@ def check_cases(ctx, cases):
                     raise
                 except Exception:
                     culprits = None
-            rep.violation(WHAT[f["kind"]], case, signature_of(case, f, culprits),
-                          {"first": f, "all": [dict(x) for x in findings[:8]]})
+            sig = signature_of(case, f, culprits)
+            # the worker shrinks the first violations of a chunk: report hits of the recorded finding last
+            recorded = sig.get("copy_info_dict") is True and sig.get("cause") == "add.arg.infos"
+            pending.append((1 if recorded else 0, WHAT[f["kind"]], case, sig,
+                            {"first": f, "all": [dict(x) for x in findings[:8]]}))
         # ---- model op
         calls = []
         for c in base["calls"]:
@@ -1454,6 +1491,8 @@ def check_cases(ctx, cases):
                           "res": [[nm, mres_json(cl)] for nm, cl in c["res"].items()]})
         plan.append((case, base, twin, len(ops)))
         ops.append({"op": "case", "calls": calls})
+    for _, what, vcase, sig, detail in sorted(pending, key=lambda t: t[0]):
+        rep.violation(what, vcase, sig, detail)
     outs = ctx.lean.run(ops)
     # ---- the table itself
     tab = outs[0]
